@@ -60,6 +60,23 @@ namespace detail
 		int_type i;
 		float_type f;
 	};
+
+	// Number of representable values that separate x and y on the real line: +0 and -0 are the same
+	// point, and values of opposite sign are |x| + |y| steps apart (sign-magnitude bit patterns cannot
+	// simply be subtracted across zero).
+	template<typename T>
+	GLM_FUNC_QUALIFIER typename make_unsigned<typename float_t<T>::int_type>::type float_distance_ulps(T x, T y)
+	{
+		typedef typename make_unsigned<typename float_t<T>::int_type>::type uint_type;
+		float_t<T> const a(x);
+		float_t<T> const b(y);
+		uint_type const SignBit = static_cast<uint_type>(1) << (sizeof(uint_type) * 8 - 1);
+		uint_type const MagA = static_cast<uint_type>(a.i) & ~SignBit;
+		uint_type const MagB = static_cast<uint_type>(b.i) & ~SignBit;
+		if(a.negative() != b.negative())
+			return MagA + MagB;
+		return MagA > MagB ? MagA - MagB : MagB - MagA;
+	}
 }//namespace detail
 }//namespace glm
 
